@@ -64,6 +64,7 @@ def cases(tier):
         out.append({"name": f"structure/{i}", "kind": "structure", "i": i})
     out.append({"name": "concrete-tokens", "kind": "concrete"})
     out.append({"name": "mixture-specification", "kind": "mixture"})
+    out.append({"name": "parse-after-near-twin", "kind": "twin"})
     return out
 
 
@@ -404,12 +405,78 @@ def run_structure_case(case, g, tier, res, on_path):
     explore_case(res, h, tier, on_path=on_path)
 
 
+def run_twin_case(case, g, tier, res, on_path):
+    """parsing is free of history: a text is parsed after a near twin of it (same characters, white space inside |...| moved:
+    the list '|1 2|' next to the scalar '|12|') and must be read exactly as on its own"""
+
+    def h(c):
+        d1 = fresh_char("d1", "123456789")
+        d2 = fresh_char("d2", "0123456789")
+        level = c.fresh_int("level", 0, 2).__index__()  # 0 descriptor, 1 token, 2 stochastic object
+        first_list = bool(c.fresh_bool("list_first"))
+        wl = SymStr.of("|", d1, " ", d2, "|")
+        ws = SymStr.of("|", d1, d2, "|")
+
+        def text(w):
+            if level == 0:
+                return SymStr.of("[<", w, "]")
+            if level == 1:
+                return SymStr.of("[<", w, "]CC[>]")
+            return SymStr.of("{[][<", w, "]CC[>]; [<][H], [>]F[]}")
+
+        def make(t):
+            return g.BondDescriptor(t, 0, "", 0) if level == 0 else g.SmilesToken(t, 0, 0) if level == 1 else g.Stochastic(t, 0)
+
+        def bd_of(o):
+            return o if level == 0 else o.bond_descriptors[0] if level == 1 else o.repeat_tokens[0].bond_descriptors[0]
+
+        tl, ts = text(wl), text(ws)
+        order = [tl, ts] if first_list else [ts, tl]
+
+        def detail(label):
+            def build(mv, c):
+                from symx.symstr import model_text
+
+                seq = [model_text(c, mv, t) for t in order]
+                return (f"C02:twin:{label}", f"parsing {seq[0]!r} and then {seq[1]!r} (level {level}): {label}", {"kind": "twin", "seq": seq, "level": level, "label": label})
+            return build
+
+        objs = []
+        for t in order:
+            try:
+                objs.append(make(t))
+            except Exception as e:
+                core.reraise_if_harness(e)
+                if level == 2 and t is tl:
+                    objs.append(None)  # a list of 2 entries on an object with 4 descriptors is rejected, with or without history
+                    continue
+                c.prove(False, "valid notation accepted", detail("a valid text is rejected after its twin was parsed"))
+                return "rejected"
+        v1 = core.SymInt(d1.e - 48)
+        v2 = core.SymInt(d2.e - 48)
+        for t, o in zip(order, objs):
+            if o is None:
+                continue
+            bd = bd_of(o)
+            if t is tl:
+                ok = bd.transitions is not None and len(bd.transitions) == 2
+                c.prove(ok, "list weight read after a twin", detail("a list weight is not read as a list after its scalar twin was parsed"))
+                if ok:
+                    c.prove(And(bd.transitions[0] == v1, bd.transitions[1] == v2, bd.weight == v1 + v2), "list weight read after a twin",
+                            detail("a list weight differs from the written entries after its scalar twin was parsed"))
+            else:
+                c.prove(bd.transitions is None and bd.weight == v1 * 10 + v2, "scalar weight read after a twin", detail("a scalar weight is not read as written after its list twin was parsed"))
+        return "ok"
+
+    explore_case(res, h, tier, on_path=on_path)
+
+
 def run_mixture_case(case, g, tier, res, on_path):
     """the mixture specification: '.|<number>|' is an absolute mass, '.|<number>%|' a percentage, in every spelling of the number"""
 
     def h(c):
         pct = bool(c.fresh_bool("percent"))
-        style = (None, "plain", "sci", "sci-short", "int")[c.fresh_int("spelling", 0, 4).__index__()]
+        style = (None, "plain", "sci", "sci-short", "sci-upper", "int")[c.fresh_int("spelling", 0, 5).__index__()]
         if style == "int":
             v = c.fresh_int("m", 1, 100 if pct else 10**9)
             num = Num(v, "int")
@@ -504,7 +571,7 @@ def _atoms_match(tok, ref):
 def run_case(case, g, tier, res):
     on_path = collector(res, PROPERTY)
     {"token": run_token_case, "descriptor": run_descriptor_case, "structure": run_structure_case, "concrete": run_concrete_case,
-     "mixture": run_mixture_case}[case["kind"]](case, g, tier, res, on_path)
+     "mixture": run_mixture_case, "twin": run_twin_case}[case["kind"]](case, g, tier, res, on_path)
 
 
 # ---------------------------------------------------------------------------
@@ -561,6 +628,27 @@ def replay(rp, gb):
             if len(ws) > 1 and (bd.transitions is None or list(bd.transitions) != ws or abs(bd.weight - sum(ws)) > 1e-9 * max(1, abs(sum(ws)))):
                 bad.append("list weight")
         return bool(bad), f"{t}: {bad}"
+    if rp["kind"] == "twin":
+        import re as _re
+
+        level = rp["level"]
+        bad = []
+        for t in rp["seq"]:
+            try:
+                o = gb.BondDescriptor(t, 0, "", 0) if level == 0 else gb.SmilesToken(t, 0, 0) if level == 1 else gb.Stochastic(t, 0)
+            except Exception as e:
+                if not (level == 2 and " " in _re.search(r"\|([^|]*)\|", t).group(1)):
+                    bad.append(f"{t!r} rejected: {type(e).__name__}")
+                continue
+            bd = o if level == 0 else o.bond_descriptors[0] if level == 1 else o.repeat_tokens[0].bond_descriptors[0]
+            body = _re.search(r"\|([^|]*)\|", t).group(1)
+            if " " in body:
+                want = [float(x) for x in body.split()]
+                if bd.transitions is None or list(bd.transitions) != want or abs(bd.weight - sum(want)) > 1e-9:
+                    bad.append(f"{t!r}: list read as weight={bd.weight} transitions={bd.transitions}")
+            elif bd.transitions is not None or bd.weight != float(body):
+                bad.append(f"{t!r}: scalar read as weight={bd.weight} transitions={bd.transitions}")
+        return bool(bad), f"{bad}"
     if rp["kind"] == "mixture":
         t, via = rp["text"], rp["via"]
         try:
